@@ -733,7 +733,7 @@ func (interp *Interpreter) cfg(root *node, sc *scope, importPath, pkgName string
 					if dest.typ.incomplete {
 						return
 					}
-					if sc.global || sc.isRedeclared(dest) {
+					if sc.global && isGlobalDefine(n) || sc.isRedeclared(dest) {
 						if n.anc != nil && n.anc.anc != nil && (n.anc.anc.kind == forStmt7 || n.anc.anc.kind == rangeStmt) {
 							// check for redefine of for loop variables, which are now auto-defined in go1.22
 							init := n.anc.anc.child[0]
@@ -919,7 +919,7 @@ func (interp *Interpreter) cfg(root *node, sc *scope, importPath, pkgName string
 
 		case defineXStmt:
 			wireChild(n)
-			if sc.def == nil {
+			if sc.def == nil && isGlobalDefine(n) {
 				// In global scope, type definition already handled by GTA.
 				break
 			}
@@ -2863,6 +2863,23 @@ func isNewDefine(n *node, sc *scope) bool {
 		return false // array, map or channel are always pre-defined in range expression
 	}
 	return false
+}
+
+// isGlobalDefine returns true if the define statement n stands at the top level
+// of a source file or of an incrementally evaluated block of statements, where it
+// defines package level variables. In a nested statement or block, it defines local
+// variables, even if the enclosing scopes up to the package level are all global.
+func isGlobalDefine(n *node) bool {
+	for a := n.anc; a != nil; a = a.anc {
+		switch a.kind {
+		case constDecl, declStmt, labeledStmt, varDecl:
+			continue
+		case blockStmt:
+			return a.anc == nil
+		}
+		return a.kind == fileStmt
+	}
+	return true
 }
 
 func isMethod(n *node) bool {
